@@ -42,7 +42,8 @@ def run_history(kind, data, ops, hist, use_path, tmpdir):
         res = _run_history(kind, ops, names, hist, obj, rd, out, problems, closed, path)
         # no handle opened by the library is left open (whatever it points to), nothing is left beside the target of a save
         del obj, rd; gc.collect()
-        leaked = {k: v for k, v in life.open_fds().items() if k not in fds_before and not v.startswith('/proc/')}
+        # (files only: pipes, sockets and devices that the interpreter or the harness may open lazily are not the library's)
+        leaked = {k: v for k, v in life.open_fds().items() if k not in fds_before and v.startswith('/') and not v.startswith(('/proc/', '/dev/', '/sys/'))}
         if leaked: problems.append('descriptor(s) left open after the object was closed: ' + ', '.join(sorted(os.path.basename(v) if '.tmp' not in v else '*.tmp' for v in leaked.values()))[:120])
         if life.STRAY: problems.append('file(s) left beside the target of save: ' + ', '.join('*' + os.path.splitext(x)[1] for x in life.STRAY)[:80])
         return res
